@@ -72,6 +72,21 @@ pub fn gen_world(seed: u64, idx: u64, s: &dyn SuiteOps, cover: usize) -> World {
             }
             ops.extend(lops);
         }
+        // degenerate but legal tapes: an op now and then starts its tape with zeros / 0xFF
+        for op in ops.iter_mut() {
+            if g.chance(1, 16) {
+                let fill = if g.chance(1, 2) { 0u8 } else { 0xFF };
+                let n = *g.pick(&[32usize, 48, 64, 66, 96]);
+                match op {
+                    Op::RegStart { tape, .. } | Op::RegFinish { tape, .. } | Op::LoginStart { tape, .. } | Op::LoginRespond { tape, .. } => {
+                        if let crate::world::Tape::Own(l) = tape.clone() {
+                            *tape = crate::world::Tape::Scripted(l, vec![fill; n].into());
+                        }
+                    }
+                    _ => {}
+                }
+            }
+        }
         threads.push(ops);
     }
     b.interleave(&mut g, threads);
